@@ -3,7 +3,7 @@ import ElvModel.C11.Driver
 import ElvModel.C12.Model
 /-
 C12 driver.  Same op lines as C11 (`cmd <TAB> step|- <TAB> arg…`), plus the
-commands `exact-num` and `inexact-num`.  Floats are hardware doubles; outputs
+commands `exact-num` and `inexact-num`, and `range` with its float branch.  Floats are hardware doubles; outputs
 print their bit pattern (`f:<16 hex>`), every NaN as `f:NaN`.
 -/
 namespace C12
@@ -19,8 +19,21 @@ def parseFloat (s : String) : Option Float :=
   if s = "NaN" then some (fOfBits 0x7ff8000000000001)
   else (parseHex64 s).map Float.ofBits
 
-def stepLine : List String → String :=
-  stepWith hwOps parseFloat showFloat (fun cmd args => runC12 hwOps cmd args)
+/-- `range` needs the `&step` option together with the arguments, which C11's
+`stepWith` does not hand to its extension hook: decode the line here. -/
+def rangeLine (st : String) (args : List String) : String :=
+  match args.mapM (parseNumWith parseFloat) with
+  | none => "bad-op"
+  | some nums =>
+    let step? : Option (Option (Num Float)) :=
+      if st = "-" then some none else (parseNumWith parseFloat st).map some
+    match step? with
+    | none => "bad-op"
+    | some step => showRes showFloat (rangeC12 hwOps hwCmp 100000 nums step)
+
+def stepLine : List String → String
+  | "range" :: st :: args => rangeLine st args
+  | l => stepWith hwOps parseFloat showFloat (fun cmd args => runC12 hwOps cmd args) l
 
 def driver : Driver := Driver.pure stepLine
 end C12
